@@ -2,7 +2,8 @@
    Only the property theorems, closed by [exact]; the model nd_map (NdMap.v) is tied to
    utility/nd_map.hpp by the correspondence check (sequence equality of the callback tuples). *)
 From Coq Require Import List Arith Sorted.
-From Covfie Require Import NdMap.
+From Covfie Require Import NdMap Refine_NdMap.
+From Covfie.gen Require Import Gen_NdMap.
 Import ListNotations.
 
 (* exactly the tuples inside the box, for every dimensionality and extent vector *)
@@ -24,7 +25,16 @@ Proof. exact nd_map_length. Qed.
 Theorem C19_lexicographic : forall s, StronglySorted lex_lt (nd_map s).
 Proof. exact nd_map_lex. Qed.
 
+(* the recursion scheme of nd_map.hpp as it stands on this run (tail drops the first component, cat concatenates in
+   order, each loop runs to the first extent, the loop index goes in front), interpreted, enumerates exactly the model
+   sequence -- for every rank and every extent vector *)
+Theorem C19_source_scheme_is_the_model : forall s, ndmap_src (length s) s = nd_map s.
+Proof. exact source_scheme_is_the_model. Qed.
+Theorem C19_source_read_completely : ndm_problems = 0.
+Proof. exact source_read_completely. Qed.
+
 Print Assumptions C19_complete.
+Print Assumptions C19_source_scheme_is_the_model.
 Print Assumptions C19_no_duplicates.
 Print Assumptions C19_exactly_once.
 Print Assumptions C19_number_of_calls.
